@@ -95,6 +95,8 @@ FnDefs ==
     IFn("shadow", <<Param("a", T2), Param("b", T2)>>, <<T2>>, BlkE(<<SLet(PId("a"), T2, V("b"))>>, V("a"))),
     IFn("twice", <<Param("a", T2)>>, <<TTup(<<T2, T2>>)>>, BlkE(<<>>, ETuple(<<ECall(CFn("idf"), <<V("a")>>), ECall(CFn("konst"), <<>>)>>))),
     IFn("chk", <<Param("a", TBool)>>, <<>>, Blk(<<SExpr(AssertE(V("a")))>>)),
+    \* a unit function whose body ends in a unit-typed call WITHOUT a semicolon (the final expression of the block)
+    IFn("chk2", <<Param("a", TBool), Param("b", TBool)>>, <<>>, BlkE(<<SExpr(ECall(CFn("chk"), <<V("a")>>))>>, ECall(CFn("chk"), <<V("b")>>))),
     IFn("sel", <<Param("c", TBool), Param("x", T2), Param("y", T2)>>, <<T2>>,
         BlkE(<<>>, EMatch(V("c"), <<Arm(MFalse, V("x")), Arm(MTrue, V("y"))>>))),
     IFn("force", <<Param("o", TOptU2)>>, <<T2>>, BlkE(<<>>, Call1(CUnwrap, V("o")))),
@@ -142,6 +144,13 @@ DiscardStmts ==
   \cup {<<SExpr(Blk(<<SLet(PIgn, T2, e)>>))>> : e \in Failing}
   \cup {<<SLet(PIgn, TUnit, EMatch(V("a"), <<Arm(MFalse, Blk(<<SLet(PIgn, T2, e)>>)), Arm(MTrue, EUnit)>>))>> : e \in Failing}
   \cup {<<SLet(PIgn, T2, e1), SLet(PIgn, T2, e2)>> : e1 \in Failing, e2 \in {Call1(CUnwrap, V("b")), Call1(CUnwrapRight(T1), V("c"))}}
+  \* a block whose FINAL expression has type unit and may panic, after an expression statement / a let / nothing
+  \cup {<<SExpr(BlkE(<<SExpr(u1)>>, u2))>> : u1 \in {AssertE(EBool(TRUE)), ECall(CFn("chk"), <<EBool(TRUE)>>)}, u2 \in FailingUnit}
+  \cup {<<SLet(PTup(<<>>), TUnit, BlkE(<<SExpr(u1)>>, u2))>> : u1 \in {AssertE(EBool(TRUE))}, u2 \in FailingUnit}
+  \cup {<<SExpr(BlkE(<<SLet(PId("u"), T2, Dec(1))>>, u2))>> : u2 \in FailingUnit}
+  \cup {<<SExpr(BlkE(<<>>, u2))>> : u2 \in FailingUnit}
+  \cup {<<SExpr(ECall(CFn("chk2"), <<EBool(TRUE), V("a")>>))>>, <<SExpr(ECall(CFn("chk2"), <<V("a"), EBool(TRUE)>>))>>}
+  \cup {<<SExpr(EMatch(V("a"), <<Arm(MFalse, BlkE(<<SExpr(AssertE(EBool(TRUE)))>>, u2)), Arm(MTrue, EUnit)>>))>> : u2 \in FailingUnit}
 DiscardDecls == <<<<"A", TBool, "a">>, <<"B", TOptU2, "b">>, <<"C", TEi, "c">>>>
 
 \* ---- families ---------------------------------------------------------------------------------
